@@ -30,3 +30,11 @@ claim("C04",
 claim("C01",
       "Decides every finite table that fixes operator meaning, on all entries: operator spellings (33) and shadowing, the ordering masks constant-folded into the 6x4 truth table, the Rust operator of each of the 18 generated comparison bodies tied to its match arm, IP family separation, the absent-value default of all compile_with sites (false except `!=` -> nil-not-equal setting), setter/getter/default of that setting, the and/or/xor/not compilation tables, precedence order + recursion guard + flattening, `not` binding. Arithmetic in core is trusted; run-time composition is not decided.",
       TB, "HIR match-arm / macro-expansion table extraction vs. spec tables, constant folding")
+claim("C05",
+      "Decides bounded parser recursion for all inputs: every cycle of the monomorphic call graph reachable from all parser entry points either spends nesting budget (+1 edge), is the precedence self-recursion guarded by a strict operator increase (depth <= 3), or is structural descent over a built AST; any other cycle is reported. Also: no error value with a constant span, ParseError::new fed with the lexed input. Char-boundary safety of slices, loop termination and Display arithmetic are not decided.",
+      TB + " Calls through dyn FunctionDefinition are user code and are not followed.",
+      "monomorphic call graph SCC classification + interprocedural nesting-delta analysis")
+claim("C13",
+      "Decides the first sentence for all inputs and all limits: on every path the content of each of the four nesting constructs (all entry points) is lexed with a parser whose counter was increased exactly once, every other parser-passing edge carries 0, the limit test is `>=` with +1 on a clone, the counter has no other writer, the default is 128; recursive AST nodes are built only where budget is spent, which bounds AST depth for compile/execute/serialize/hash/drop.",
+      TB + " Flow-insensitive value-set analysis (over-approximates the deltas possible on a path).",
+      "interprocedural abstract interpretation (nesting-delta value sets) over mono MIR")
